@@ -4,6 +4,9 @@ package c14
 import (
 	"context"
 	"fmt"
+	"github.com/sdcio/data-server/pkg/datastore"
+	"github.com/sdcio/data-server/pkg/server"
+	"google.golang.org/grpc/peer"
 	"os"
 	"sort"
 	"strings"
@@ -39,14 +42,16 @@ type PathSel struct {
 }
 
 type Case struct {
-	Running []vlib.LeafSel   `json:"running"`         // CONFIG / STATE content
-	Intents [][]vlib.LeafSel `json:"intents"`         // up to 2 owners' content (INTENDED)
-	Paths   []PathSel        `json:"paths"`           // empty = no path given
-	Root    bool             `json:"root,omitempty"`  // request the root path
-	Enc     int32            `json:"enc"`             // sdcpb.Encoding value (0..3 valid, 4 invalid)
-	DSType  string           `json:"ds_type"`         // main | intended
-	DType   int32            `json:"dtype"`           // ALL CONFIG STATE
-	Owner   int              `json:"owner"`           // intended: -1 = none (highest precedence), 0/1 = that owner with its priority
+	Running []vlib.LeafSel   `json:"running"`        // CONFIG / STATE content
+	Intents [][]vlib.LeafSel `json:"intents"`        // up to 2 owners' content (INTENDED)
+	Paths   []PathSel        `json:"paths"`          // empty = no path given
+	Root    bool             `json:"root,omitempty"` // request the root path
+	Enc     int32            `json:"enc"`            // sdcpb.Encoding value (0..3 valid, 4 invalid)
+	DSType  string           `json:"ds_type"`        // main | intended
+	DType   int32            `json:"dtype"`          // ALL CONFIG STATE
+	Owner   int              `json:"owner"`          // intended: -1 = none (highest precedence), 0/1 = that owner with its priority
+	// ViaServer: call the gRPC handler Server.GetData on a harness stream instead of Datastore.Get
+	ViaServer bool `json:"via_server,omitempty"`
 }
 
 // twins adds, for some of the leaves, a sibling under a list entry whose key values differ in some positions
@@ -119,6 +124,7 @@ func gen(t *rapid.T) *Case {
 		}
 		np = len(c.Paths)
 	}
+	c.ViaServer = rapid.Bool().Draw(t, "via-server")
 	c.Root = np == 0 || rapid.IntRange(0, 5).Draw(t, "root") == 0
 	c.Enc = int32(rapid.SampledFrom([]int{0, 1, 2, 3, 0, 1, 2, 3, 4}).Draw(t, "enc"))
 	c.DSType = rapid.SampledFrom([]string{"main", "main", "main", "intended"}).Draw(t, "ds")
@@ -209,9 +215,9 @@ func resolvePath(ps PathSel) vlib.IPath {
 }
 
 type reply struct {
-	conf     vlib.Conf
-	msgs     int
-	err      error
+	conf      vlib.Conf
+	msgs      int
+	err       error
 	anomalies []string
 }
 
@@ -255,10 +261,31 @@ func get(ctx context.Context, h *vlib.HistEnv, req *sdcpb.GetDataRequest) reply 
 	}()
 	cctx, cancel := context.WithTimeout(ctx, 20*time.Second)
 	defer cancel()
+	if viaServer {
+		// the gRPC handler (hook H7) on a harness stream: what counts is what was sent when the handler returns
+		srv := server.VerifNewServer(ctx, map[string]*datastore.Datastore{h.DSName: h.DS})
+		st := vlib.NewFakeStream[sdcpb.GetDataResponse](peer.NewContext(cctx, &peer.Peer{Addr: addr("10.0.0.1:5000")}))
+		r.err = srv.GetData(req, st)
+		msgs := st.Messages()
+		for _, m := range msgs {
+			ch <- m
+		}
+		close(ch)
+		<-done
+		return r
+	}
 	r.err = h.DS.Get(cctx, req, ch)
 	<-done
 	return r
 }
+
+type addr string
+
+func (a addr) Network() string { return "tcp" }
+func (a addr) String() string  { return string(a) }
+
+// viaServer: requests go through Server.GetData instead of Datastore.Get (set per case)
+var viaServer bool
 
 func dropKeyLeaves(c vlib.Conf) vlib.Conf {
 	r := vlib.Conf{}
@@ -273,6 +300,7 @@ func dropKeyLeaves(c vlib.Conf) vlib.Conf {
 func Exec(c *Case) (nontrivial bool, labels []string, fail *vlib.Failure) {
 	ctx := context.Background()
 	env := vlib.MustEnv()
+	viaServer = c.ViaServer
 	hc := &vlib.HistCase{Universe: "plain", Palette: palette}
 	h, err := vlib.NewHistEnv(ctx, env, hc, vlib.HistEnvOpts{})
 	if err != nil {
